@@ -592,6 +592,11 @@ func (idx *indexer) mapKey(key []byte, vLen int, vOff int64, hVal [sha256.Size]b
 		return key, nil
 	}
 
+	if vLen > idx.store.maxValueLen {
+		// the length is not covered by any hash: a damaged one must not size a buffer
+		return nil, fmt.Errorf("%w: value length exceeds the maximum", ErrCorruptedData)
+	}
+
 	buf := idx.valBuffer(vLen)
 	_, err = idx.store.readValueAt(buf, vOff, hVal, false)
 	if err != nil {
